@@ -167,6 +167,13 @@ def open_rules(facts, rep, rule="C15-OPEN"):
                 rows["pw,plain:accept"] = g2 if rows["pw,plain:accept"] in (None, True) else False
     for k, v in rows.items():
         ok &= rep.check(v is True, rule, "table:%s" % k, where(m, m.span), k, "make_crypto_reader row '%s' does not hold (%s)" % (k, v))
+    # nothing else decides: the method, the two Options, the data-descriptor flag and the results of the constructors / validators.  (A
+    # validator picked by `using_data_descriptor && crc32 == 0` refuses the right password for Info-ZIP entries whose CRC is known.)
+    KNOWN_ATOMS = (r"^discr\((compression_method|password|aes_info)\)$|^using_data_descriptor$|^discr\((ok\()?(Try::branch\()?(ZipCryptoReader|AesReader)::(validate|new)\(|"
+                   r"^discr\(ok\(aes_info\)|^(\w+::)*unsupported|^discr\(Try::branch\(")
+    extra = sorted({a_[:70] for p_ in psm for a_, v_ in p_["decisions"] if a_ != "#iter" and not re.search(KNOWN_ATOMS, a_)})
+    ok &= rep.check(not extra, rule, "table:no-other-atom", where(m, m.span), "only method, password, AES info, the data-descriptor flag and constructor/validator results decide",
+                    "make_crypto_reader additionally branches on %s" % extra[:3])
     # password-less public wrappers: an inner InvalidPassword becomes the password-required error, never a panic
     for nm in ("by_index", "by_name"):
         g = facts.one(ZA + nm + "$")
